@@ -574,10 +574,8 @@ func (x *runner) body() {
 	sc := x.sc
 	x.t0 = time.Now()
 	kcp.VerifWaitSetRefTime(x.t0)
-	inert := kcp.NewTimedSched(1)
-	inert.Close()
-	synctest.Wait()
-	kcp.SystemTimedSched = inert
+	// truly inert scheduler: the zero value has no goroutines and nil channels, Put only appends
+	kcp.SystemTimedSched = &kcp.TimedSched{}
 
 	needS, needL := sc.infl > 0, false
 	for _, k := range sc.kinds {
@@ -715,6 +713,8 @@ func runSchedule(t *testing.T, o *hx.Out, sc *schedule, async bool) {
 // testing.Main, and testing.Main exits the process.  Results are written before that.
 func Run(o *hx.Out, g *hx.Rng, tier string) {
 	async := strings.Contains(os.Getenv("GODEBUG"), "asynctimerchan=1")
+	// hx.NewRng(k) is hx.NewRng(1) advanced by k-1 draws; Fork hashes, which decorrelates the seeds
+	g = g.Fork()
 	test := func(t *testing.T) {
 		n := 2500
 		if tier == "thorough" {
